@@ -750,7 +750,7 @@ class PathEnumerator:
             live = nxt
         return done + live
 
-    def _loop(self, st, p: Path, fr: Frame) -> List[Path]:
+    def _loop(self, st, p: Path, fr: Frame, it_override: Optional[Term] = None) -> List[Path]:
         ev = self.ev
         f = self._frame(fr, p)
         body_env = dict(p.env)
@@ -761,11 +761,21 @@ class PathEnumerator:
             if n in body_env:
                 body_env[n] = ("loopvar", n, st.lineno)
         it: Optional[Term] = None
-        if isinstance(st, ast.For) and self.unroll_literal_loops and isinstance(st.iter, (ast.Tuple, ast.List)) and 0 < len(st.iter.elts) <= 8 \
+        if it_override is None and isinstance(st, ast.For) and self.unroll_literal_loops and isinstance(st.iter, (ast.Tuple, ast.List)) and 0 < len(st.iter.elts) <= 8 \
                 and not any(isinstance(x, ast.Starred) for x in st.iter.elts) and not st.orelse:
             return self._unrolled(st, p, fr)
         if isinstance(st, ast.For):
-            it = ev.expr(st.iter, f)
+            it = it_override if it_override is not None else ev.expr(st.iter, f)
+            if it[0] == "concat" and not st.orelse:
+                # a loop over a chain of iterables is the loops over its parts, one after the other
+                live, done = [p], []
+                for part in it[1]:
+                    nxt: List[Path] = []
+                    for q in live:
+                        for r in self._loop(st, q, fr, it_override=part):
+                            (nxt if r.exit == "fall" else done).append(r)
+                    live = nxt
+                return done + live
             if self.unroll_literal_loops and it[0] in ("tuple", "list") and not st.orelse and 0 < len(it[1]) <= 8 and not any(x[0] == "star" for x in it[1]):
                 return self._unrolled_terms(st, list(it[1]), p, fr)
             if self.unroll_literal_loops and it[0] == "var" and not st.orelse:
